@@ -23,6 +23,13 @@ class ResetAttributeSequenceNumbers(RelativeHandlerInterface):
         Args:
             target: The target class instance
         """
+        # Renumber the base classes first: a base class that is still being
+        # finalized carries the raw xs:sequence ids in its attrs.
+        for extension in target.extensions:
+            base = self.container.find(extension.type.qname)
+            if base is not None and base is not target:
+                self.process(base)
+
         groups = defaultdict(list)
         for attr in target.attrs:
             if attr.restrictions.sequence:
